@@ -1,12 +1,12 @@
 package main
 
 import (
-	"os"
-	"go/constant"
 	"fmt"
+	"go/constant"
 	"go/token"
 	"go/types"
 	"math"
+	"os"
 	"sort"
 	"strings"
 
@@ -487,7 +487,9 @@ func ruleFanOut(c *Ctx) {
 	// the value the goroutine works on is the value everybody else uses: a copy made after `go f.run()` (a constructor
 	// returning the struct by value) has its own mutex but shares the map - no critical section excludes the delivery loop
 	{
-		sites := lockCopies(c.P, func(fn *ssa.Function) bool { return c.P.OwnedFunc(fn) && !strings.Contains(pkgPathOf(topFunc(fn)), "/controls") })
+		sites := lockCopies(c.P, func(fn *ssa.Function) bool {
+			return c.P.OwnedFunc(fn) && !strings.Contains(pkgPathOf(topFunc(fn)), "/controls")
+		})
 		bad := ""
 		for _, s := range sites {
 			bad = fmt.Sprintf("%s: the %s value is copied at %s although a goroutine started at %s keeps using the original: the copy has its own mutex but shares the maps/channels, so Spawn/Despawn no longer exclude the delivery loop (send on a closed channel, concurrent map access)", shortFn(s.fn), s.typ, c.P.Pos(s.copyPos), c.P.Pos(s.goPos))
